@@ -14,20 +14,22 @@ theorem TaskOk.congr {P : Program} {s s' : St} {k : Key} (h1 : s'.env = s.env) (
   · rw [h7]; exact h.issued
   · rw [h7]; exact h.valid
   · rw [h7, h6, h3]; exact h.inputs
+  · rw [h7, h6]; exact h.running
   · rw [h7, h6, h3, h1]; exact h.computing
 
-/-- `Inv` only reads these ten fields of the state. -/
+/-- `Inv` only reads these eleven fields of the state. -/
 theorem Inv.congr {P : Program} {s s' : St} (h1 : s'.env = s.env) (h2 : s'.epoch = s.epoch) (h3 : s'.mem = s.mem)
     (h4 : s'.db = s.db) (h5 : s'.dbIter = s.dbIter) (h6 : s'.status = s.status) (h7 : s'.task = s.task)
     (h8 : s'.pending = s.pending) (h9 : s'.target = s.target) (h10 : s'.started = s.started)
-    (hi : Inv P s) : Inv P s' := by
+    (h11 : s'.validSeen = s.validSeen) (hi : Inv P s) : Inv P s' := by
   have ha : active s' ↔ active s := active_congr h10
   have hf : ∀ k, inflight s' k = inflight s k := inflight_congr h6
   constructor
   · rw [h3, h2]; exact hi.memE
   · rw [h4, h2]; exact hi.dbE
   · rw [h5, h2]; exact hi.iterLe
-  · rw [h9, h5, h2]; exact hi.iterEq
+  · rw [h9, h10, h5, h2]; exact hi.iterEq
+  · rw [h9, h8]; exact hi.pendIdle
   · rw [h10, h2]; exact hi.startedPos
   · rw [h10, h9]; exact hi.startedTarget
   · rw [h10, h9, h6]; exact hi.notStarted
@@ -38,13 +40,117 @@ theorem Inv.congr {P : Program} {s s' : St} (h1 : s'.env = s.env) (h2 : s'.epoch
   · intro k hk; rw [h6] at hk; rw [h3, h6, h8]; exact hi.seqDone k hk
   · intro k hb hfl; rw [h3] at hb; rw [hf] at hfl; rw [h3, h8]; exact hi.good k hb hfl
   · intro k hb; rw [h4] at hb; rw [h4, h8]; exact hi.dbGood k hb
+  · intro k hb; rw [h4] at hb; rw [h4, h3, h8]; exact hi.dbCross k hb
   · intro k hb hfl; rw [h3] at hb; rw [hf] at hfl; rw [h3, h4]; exact hi.memDb k hb hfl
   · intro k hk; rw [h6] at hk; rw [h1, h3]; exact hi.clean k hk
   · intro d v hd; rw [h8] at hd; rw [h1, h6]; exact hi.pendOk d v hd
   · intro k hfl hs; rw [hf] at hfl; rw [h7] at hs; exact (hi.taskOk k hfl hs).congr h1 h3 h6 h7
   · intro k hfl; rw [hf] at hfl; exact ha.2 (hi.inflightActive k hfl)
+  · rw [h6, h11, h1, h3]; exact hi.validOk
+  · rw [h9, h6, h11]; exact hi.validIdle
 
 theorem Inv.init (P : Program) : Inv P ({} : St) := by
   constructor <;> intros <;> simp_all [active, inflight]
+
+end LLBuild.Engine
+
+namespace LLBuild.Engine
+
+@[simp] theorem setRes_res_same (σ : Store) (k : Key) (r : Res) : (σ.setRes k r).res k = r := by simp [Store.setRes]
+theorem setRes_res_other (σ : Store) (k k' : Key) (r : Res) (h : k' ≠ k) : (σ.setRes k r).res k' = σ.res k' := by
+  simp [Store.setRes, upd, h]
+@[simp] theorem setRes_seq (σ : Store) (k : Key) (r : Res) : (σ.setRes k r).seq = σ.seq := rfl
+@[simp] theorem setRes_disc (σ : Store) (k : Key) (r : Res) : (σ.setRes k r).disc = σ.disc := rfl
+@[simp] theorem setRes_env (σ : Store) (k : Key) (r : Res) : (σ.setRes k r).env = σ.env := rfl
+
+/-- `GoodRec` only depends on the ghost record of `k`, its stored value, and membership in its dependency list. -/
+theorem GoodRec.frame {P : Program} {σ σ' : Store} {k : Key}
+    (hs : σ'.seq k = σ.seq k) (hd : σ'.disc k = σ.disc k) (he : σ'.env k = σ.env k)
+    (hv : (σ'.res k).value = (σ.res k).value)
+    (hdep : ∀ x, (⟨x, false, false⟩ : Dep) ∈ (σ.res k).deps → (⟨x, false, false⟩ : Dep) ∈ (σ'.res k).deps)
+    (h : GoodRec P σ k) : GoodRec P σ' k := by
+  constructor
+  · rw [hs]; exact h.valid
+  · rw [hs]; exact h.complete
+  · rw [hv, he, hs]; exact h.value
+  · rw [hd, he, hs]; exact h.disc
+  · intro q v hq hk; rw [hs] at hq; exact hdep _ (h.depsSeq q v hq hk)
+  · intro d v hq; rw [hd] at hq; exact hdep _ (h.depsDisc d v hq)
+
+/-- `FreshRec` is monotone: `k`'s own `builtAt` may only decrease; every recorded dependency either
+keeps its value with a `computedAt` that does not decrease, or is computed after `k`'s `builtAt`
+(or, for discovered ones, stays pending). -/
+theorem FreshRec.mono2 {σ σ' : Store} {pend pend' : List (Key × Val)} {k : Key}
+    (hs : σ'.seq k = σ.seq k) (hd : σ'.disc k = σ.disc k)
+    (hb : (σ'.res k).builtAt ≤ (σ.res k).builtAt)
+    (hxs : ∀ q v, (q, v) ∈ σ.seq k → q.kind = 0 →
+      ((σ'.res q.key).value = (σ.res q.key).value ∧ (σ.res q.key).computedAt ≤ (σ'.res q.key).computedAt) ∨
+        (σ.res k).builtAt < (σ'.res q.key).computedAt)
+    (hxd : ∀ d v, (d, v) ∈ σ.disc k →
+      ((σ'.res d).value = (σ.res d).value ∧ (σ.res d).computedAt ≤ (σ'.res d).computedAt) ∨
+        (σ.res k).builtAt < (σ'.res d).computedAt ∨ (d, v) ∈ pend')
+    (hp : ∀ dv, dv ∈ σ.disc k → dv ∈ pend → dv ∈ pend' ∨ (σ'.res dv.1).value = dv.2 ∨
+               (σ'.res k).builtAt < (σ'.res dv.1).computedAt)
+    (h : FreshRec σ pend k) : FreshRec σ' pend' k := by
+  constructor
+  · intro q v hq hk
+    rw [hs] at hq
+    rcases hxs q v hq hk with ⟨hv, hc⟩ | hlt
+    · rcases h.seq q v hq hk with h1 | h2
+      · left; rw [hv]; exact h1
+      · right; omega
+    · right; omega
+  · intro d v hq
+    rw [hd] at hq
+    rcases hxd d v hq with ⟨hv, hc⟩ | hlt | hpd
+    · rcases h.disc d v hq with h1 | h2 | h3
+      · left; rw [hv]; exact h1
+      · right; left; omega
+      · rcases hp (d, v) hq h3 with a | b | c
+        · right; right; exact a
+        · left; exact b
+        · right; left; exact c
+    · right; left; omega
+    · right; right; exact hpd
+
+theorem CrossFresh.mono {ρ σ σ' : Store} {pend pend' : List (Key × Val)} {k : Key}
+    (hxs : ∀ q v, (q, v) ∈ ρ.seq k → q.kind = 0 →
+      ((σ'.res q.key).value = (σ.res q.key).value ∧ (σ.res q.key).computedAt ≤ (σ'.res q.key).computedAt) ∨
+        (ρ.res k).builtAt < (σ'.res q.key).computedAt)
+    (hxd : ∀ d v, (d, v) ∈ ρ.disc k →
+      ((σ'.res d).value = (σ.res d).value ∧ (σ.res d).computedAt ≤ (σ'.res d).computedAt) ∨
+        (ρ.res k).builtAt < (σ'.res d).computedAt ∨ (d, v) ∈ pend')
+    (hp : ∀ dv, dv ∈ ρ.disc k → dv ∈ pend → dv ∈ pend' ∨ (σ'.res dv.1).value = dv.2 ∨
+               (ρ.res k).builtAt < (σ'.res dv.1).computedAt)
+    (h : CrossFresh ρ σ pend k) : CrossFresh ρ σ' pend' k := by
+  constructor
+  · intro q v hq hk
+    rcases hxs q v hq hk with ⟨hv, hc⟩ | hlt
+    · rcases h.seq q v hq hk with h1 | h2
+      · left; rw [hv]; exact h1
+      · right; omega
+    · right; omega
+  · intro d v hq
+    rcases hxd d v hq with ⟨hv, hc⟩ | hlt | hpd
+    · rcases h.disc d v hq with h1 | h2 | h3
+      · left; rw [hv]; exact h1
+      · right; left; omega
+      · rcases hp (d, v) hq h3 with a | b | c
+        · right; right; exact a
+        · left; exact b
+        · right; left; exact c
+    · right; left; omega
+    · right; right; exact hpd
+
+theorem FreshRec.mono {σ σ' : Store} {pend pend' : List (Key × Val)} {k : Key}
+    (hs : σ'.seq k = σ.seq k) (hd : σ'.disc k = σ.disc k)
+    (hb : (σ'.res k).builtAt ≤ (σ.res k).builtAt)
+    (hx : ∀ x, ((σ'.res x).value = (σ.res x).value ∧ (σ.res x).computedAt ≤ (σ'.res x).computedAt) ∨
+               (σ.res k).builtAt < (σ'.res x).computedAt)
+    (hp : ∀ dv, dv ∈ σ.disc k → dv ∈ pend → dv ∈ pend' ∨ (σ'.res dv.1).value = dv.2 ∨
+               (σ'.res k).builtAt < (σ'.res dv.1).computedAt)
+    (h : FreshRec σ pend k) : FreshRec σ' pend' k :=
+  FreshRec.mono2 hs hd hb (fun q _ _ _ => hx q.key)
+    (fun d _ _ => (hx d).elim (fun a => Or.inl a) (fun b => Or.inr (Or.inl b))) hp h
 
 end LLBuild.Engine
